@@ -10,71 +10,6 @@ pub open spec fn para_view(p: Paragraph) -> Seq<(Seq<char>, Seq<char>)> {
     fields_view(p.fields@)
 }
 
-/// index of the first field called `name`, or -1
-pub open spec fn first_idx(l: Seq<(Seq<char>, Seq<char>)>, name: Seq<char>) -> int
-    decreases l.len()
-{
-    if l.len() == 0 { -1 }
-    else if l[0].0 == name { 0 }
-    else { let r = first_idx(l.skip(1), name); if r < 0 { -1 } else { r + 1 } }
-}
-
-pub proof fn lemma_first_idx(l: Seq<(Seq<char>, Seq<char>)>, name: Seq<char>)
-    ensures
-        -1 <= first_idx(l, name) < l.len(),
-        first_idx(l, name) >= 0 ==> l[first_idx(l, name)].0 == name,
-        forall|j: int| 0 <= j < l.len() && (j < first_idx(l, name) || first_idx(l, name) < 0) ==> (#[trigger] l[j]).0 != name,
-    decreases l.len()
-{
-    if l.len() > 0 && l[0].0 != name {
-        lemma_first_idx(l.skip(1), name);
-        let r = first_idx(l.skip(1), name);
-        assert forall|j: int| 0 <= j < l.len() && (j < first_idx(l, name) || first_idx(l, name) < 0) implies (#[trigger] l[j]).0 != name by {
-            if j > 0 { assert(l[j] == l.skip(1)[j - 1]); }
-        }
-    }
-}
-
-/// i is the first index whose name matches
-pub proof fn lemma_first_idx_is(l: Seq<(Seq<char>, Seq<char>)>, name: Seq<char>, i: int)
-    requires 0 <= i < l.len(), l[i].0 == name, forall|j: int| 0 <= j < i ==> (#[trigger] l[j]).0 != name
-    ensures first_idx(l, name) == i
-    decreases i
-{
-    if i > 0 {
-        assert(l[0].0 != name);
-        assert(l.skip(1)[i - 1] == l[i]);
-        assert forall|j: int| 0 <= j < i - 1 implies (#[trigger] l.skip(1)[j]).0 != name by { assert(l.skip(1)[j] == l[j + 1]); }
-        lemma_first_idx_is(l.skip(1), name, i - 1);
-    }
-}
-pub proof fn lemma_first_idx_none(l: Seq<(Seq<char>, Seq<char>)>, name: Seq<char>)
-    requires forall|j: int| 0 <= j < l.len() ==> (#[trigger] l[j]).0 != name
-    ensures first_idx(l, name) == -1
-    decreases l.len()
-{
-    if l.len() > 0 {
-        assert(l[0].0 != name);
-        assert forall|j: int| 0 <= j < l.skip(1).len() implies (#[trigger] l.skip(1)[j]).0 != name by { assert(l.skip(1)[j] == l[j + 1]); }
-        lemma_first_idx_none(l.skip(1), name);
-    }
-}
-
-// ---- the statement's four list operations ----
-pub open spec fn list_get(l: Seq<(Seq<char>, Seq<char>)>, name: Seq<char>) -> Option<Seq<char>> {
-    if first_idx(l, name) >= 0 { Some(l[first_idx(l, name)].1) } else { None }
-}
-pub open spec fn list_insert(l: Seq<(Seq<char>, Seq<char>)>, name: Seq<char>, value: Seq<char>) -> Seq<(Seq<char>, Seq<char>)> {
-    l.push((name, value))
-}
-pub open spec fn list_set(l: Seq<(Seq<char>, Seq<char>)>, name: Seq<char>, value: Seq<char>) -> Seq<(Seq<char>, Seq<char>)> {
-    if first_idx(l, name) >= 0 { l.update(first_idx(l, name), (name, value)) } else { l.push((name, value)) }
-}
-/// all fields of that name removed, everything else in order
-pub open spec fn list_remove(l: Seq<(Seq<char>, Seq<char>)>, name: Seq<char>) -> Seq<(Seq<char>, Seq<char>)> {
-    l.filter(|f: (Seq<char>, Seq<char>)| f.0 != name)
-}
-
 // ---- printed shape ----
 pub open spec fn sp() -> Seq<char> { seq![' '] }
 pub open spec fn lf() -> Seq<char> { seq!['\n'] }
